@@ -69,6 +69,11 @@ func genLink(r *verifsim.SplitMix) txLink {
 		}
 	case x < 65:
 		l.Crash = &verifsim.CrashPlan{Node: "R", Kind: "any", N: -1 - r.Intn(1000)}
+		if r.Chance(1, 2) {
+			// Ctrl-C: the interrupt handler flushes every sidecar and exits, while the
+			// ticker and the readers keep running until the exit
+			l.Crash.Signal = true
+		}
 	case x < 78:
 		l.Crash = &verifsim.CrashPlan{Node: "S", Kind: "any", N: -1 - r.Intn(1000)}
 	default:
